@@ -48,11 +48,16 @@ def method(g, rng, body):
 
 def other_decl(g, rng):
     T = prog.T
-    c = rng.below(4)
+    c = rng.below(6)
     if c == 0:
         return [T("Const", "const"), g.ident("c"), T("Equals", "="), T("NumericLiteral", "7")]
     if c == 1:
         return [T("Type", "type"), g.ident("t"), T("Colon"), T("Identifier", "int")]
+    if c == 4:
+        # declarations whose parsers share sub-parsers with statements (literals, identifiers, parameter lists)
+        return [T("Type", "type"), g.ident("t"), T("Colon"), T("NumericLiteral", "1"), T("To", "to"), T("NumericLiteral", "10")]
+    if c == 5:
+        return [T("Memory", "memory"), g.ident("f"), T("Colon"), T("Identifier", "int"), T("Absolute", "absolute"), g.ident("g")]
     if c == 2:
         return [g.ident("f"), T("Colon"), T("Identifier", "tFoo")]
     return [T("Comment", "; note")]
@@ -127,6 +132,8 @@ def run(ctx):
             bodies = []
             if pi < (20 if q else 60):
                 bodies += short
+            # runs of operands of every small length (a stale cache entry needs the right remaining length)
+            bodies += [[T("Identifier", "x%d" % j) for j in range(n)] for n in range(1, 7)]
             for _ in range(6 if q else 12):
                 c = rng.below(3)
                 if c == 0:
